@@ -36,7 +36,7 @@ def base_case(rng, rvals, kind, api):
     rmap = RMAP_ED if ed else RMAP_SET
     case = {'kind': kind, 'ae': rng.choice([1, 1, 0]), 'am': rng.choice([0, 1]), 'n_jobs': 1,
             'lout': rng.choice([None, ['a'], ['s', 'a']]), 'rout': rng.choice([None, ['a']]),
-            'tok': {'kind': 'qg', 'q': 2, 'pad': 1, 'rs': 0} if ed else {'kind': 'ws', 'rs': rng.choice([1, 0])}}
+            'tok': {'kind': 'qg', 'q': 2, 'pad': 1, 'rs': rng.choice([0, 0, 1])} if ed else {'kind': 'ws', 'rs': rng.choice([1, 0])}}
     if kind == 'join':
         meas = record.JOINS[api]
         case.update(api=api, meas=meas, filt='NONE', sc=rng.choice([1, 1, 0]))
@@ -99,12 +99,17 @@ def variants(rng, case, njobs_values):
         other['t'] = [9, 10] if case['t'] != [9, 10] else [1, 2]
     c2['_before'] = other
     out.append(('after-call-with-other-threshold', c2))
-    if case['kind'] == 'join' and case['meas'] != 'EDIT_DISTANCE' and case['tok'].get('rs', 1) == 0:
+    ed = case['meas'] == 'EDIT_DISTANCE'
+    # the join switches the tokenizer's mode while it runs: set-similarity joins a bag-mode one, the edit-distance join
+    # a set-mode one
+    if case['kind'] == 'join' and case['tok'].get('rs', 1) == (1 if ed else 0):
         c3 = copy.deepcopy(case)
         c3['n_jobs'] = rng.choice([1, 2, 3])
-        c3['_probe'] = {'L': {'cols': ['id', 's'], 'rows': [[1, 'x x y'], [2, 'x y'], [3, 'x x x x']], 'index': None,
+        lvals, rvals = (['aaaa', 'abab', 'aab'], ['aaab', 'a', 'bbbbba']) if ed else \
+            (['x x y', 'x y', 'x x x x'], ['x y y', 'x', 'y y y y x'])
+        c3['_probe'] = {'L': {'cols': ['id', 's'], 'rows': [[j + 1, v] for j, v in enumerate(lvals)], 'index': None,
                               'strcols': ['s']},
-                        'R': {'cols': ['id', 's'], 'rows': [[11, 'x y y'], [12, 'x'], [13, 'y y y y x']], 'index': None,
+                        'R': {'cols': ['id', 's'], 'rows': [[j + 11, v] for j, v in enumerate(rvals)], 'index': None,
                               'strcols': ['s']}}
         out.append(('probe-before-after', c3))
     return out
